@@ -29,9 +29,9 @@ func VH_C10_repetition(h int) {
 	}
 	clockAt := func(i int) int {
 		if i == h {
-			return p.halfMoveClock
+			return int(p.halfMoveClock)
 		}
-		return p.history[i].halfMoveClock
+		return int(p.history[i].halfMoveClock)
 	}
 	for i := 0; i < h; i++ {
 		vxAssume(clockAt(i) >= 0 && clockAt(i) < 1<<20)
